@@ -1,13 +1,14 @@
 #!/bin/bash
 # usage: tools/seed_eval.sh <seeded-dir-name> <check ids...>   e.g. tools/seed_eval.sh C02-a C02 C03
-# Applies /verif/seeded/<name>/patch.diff to /repo, runs the given checks (quick tier, VERIF_SEED or 1), reverts.
+# Applies seeded/<name>/patch.diff to /repo, runs the given checks (quick tier, VERIF_SEED or 1), reverts.
+V="$(cd "$(dirname "$0")/.." && pwd)"  # the /verif tree this script belongs to (a committed snapshot under vp run)
 set -u
 name=$1; shift
 cd /repo || exit 9
 if ! git diff --quiet; then echo "/repo has uncommitted changes"; exit 9; fi
-git apply /verif/seeded/$name/patch.diff || { echo "patch does not apply"; exit 9; }
+git apply $V/seeded/$name/patch.diff || { echo "patch does not apply"; exit 9; }
 trap 'git -C /repo checkout -- . ; git -C /repo clean -fdq internal cmd' EXIT
-cd /verif
+cd "$V"
 for c in "$@"; do
   out=$(timeout 1500 ./check $c --tier ${TIER:-quick} --seed ${VERIF_SEED:-1} --no-evidence 2>&1); rc=$?
   echo "SEED $name CHECK $c rc=$rc $(echo "$out" | grep -c '^VIOLATION') violation lines; first: $(echo "$out" | grep -m1 -- '->' | cut -c1-220)"
